@@ -522,7 +522,7 @@ def rule_nested_is_a_pipefunc(ctx: Ctx) -> None:
     if op is not None:
         mk = [c for c in ast.walk(op.node) if isinstance(c, ast.Call) and dotted(c.func) in ("inspect.Parameter", "Parameter") and c.args]
         d_op = Defs(op)
-        from_inner = [c for c in mk if isinstance(c.args[0], ast.Name) and any(w in Scope(ctx, op).text() for w in ("_all_inputs", ".parameters"))]
+        from_inner = [c for c in mk if isinstance(c.args[0], ast.Name) and any(w in Scope(ctx, op).text() for w in ("_all_inputs", ".parameters", "root_args"))]
         ctx.add("9-details", op, from_inner[0] if from_inner else op.node, not from_inner, "the parameter table of a NestedPipeFunc does not require identifier names" if not from_inner else
                 f"`{norm(from_inner[0])[:60]}` is built from the input names of the internal pipeline, which are dotted after update_scope: inspect.Parameter rejects them - "
                 "update_scope followed by nest_funcs raises ValueError(\"'s.a' is not a valid parameter name\"), the composition cannot be constructed", key="nested-parameter-names")
@@ -538,6 +538,24 @@ def rule_nested_is_a_pipefunc(ctx: Ctx) -> None:
         ctx.tri("9-details", wc, (over_dict or over_names or [wc.node])[0], bool(over_names) and not over_dict, bool(over_dict), "the outputs are handed back in the declared order (`for name in self.output_name`)",
                 f"`{norm(over_dict[0])[:70] if over_dict else ''}` takes the outputs in the order of the result dict - the order in which the internal pipeline computed them - not in the declared `output_name` order: "
                 "whenever the two differ the values land on the wrong output names", "how the output tuple is assembled was not recognised", key="nested-declared-order")
+    # what a nested function asks of its caller are the ROOT ARGUMENTS of its internal pipeline - "all inputs minus all outputs"
+    # also lists a parameter that the one inner function taking it has bound (the inner pipeline never asks for it)
+    if op is not None:
+        t_op = norm(op.node)
+        by_root = "root_args" in t_op
+        by_diff = "_all_inputs" in t_op and "_all_outputs" in t_op and "_bound" not in t_op and not by_root
+        ctx.tri("9-details", op, op.node, by_root, by_diff, "the parameters of a nested function are the root arguments of its internal pipeline",
+                "NestedPipeFunc takes `all inputs - all outputs` of its inner functions for its parameters: a parameter that is BOUND in the inner function that takes it becomes a required argument of the nested function - "
+                "nest_funcs over a function with a bound parameter makes pipeline(...) raise 'Missing value' for it", "how the parameters of a nested function are derived was not recognised", key="nested-parameters-are-root-args")
+    # ... and the type of an output is what the producing inner function declares: the wrapped callable (call_full_output) returns the
+    # dict of ALL results, its return annotation is not the output's
+    oa = dict.get(nf.methods, "output_annotation")
+    base_oa = P.func(f"{PFM}.PipeFunc.output_annotation")
+    unwraps = [c for c in ast.walk(base_oa.node) if isinstance(c, ast.Call) and dotted(c.func) == "isinstance" and len(c.args) == 2 and "_NestedFuncWrapper" in norm(c.args[1])]
+    ctx.tri("9-details", oa if oa is not None else base_oa, (oa or base_oa).node, oa is not None and "pipeline" in norm(oa.node), oa is None and bool(unwraps),
+            "NestedPipeFunc.output_annotation comes from the inner functions that produce the outputs",
+            "the output annotation of a NestedPipeFunc is read off the wrapped `call_full_output`, which returns the dict of all results: a nested function with ONE output is annotated `dict[...]`, "
+            "so nest_funcs over annotated functions is refused with 'Inconsistent type annotations' although every edge of the original pipeline is compatible", "output annotation of nested functions not recognised", key="nested-output-annotation")
     fn = dict.get(nf.methods, "func")
     if fn is None:
         ctx.add("9-details", nf.qualname, nf.loc, None, "UNDECIDED: NestedPipeFunc.func not found", key="nested-picks-internal-names")
